@@ -743,7 +743,9 @@ impl Prop for C08 {
         "Direct calls to Operation::{sum,subtract,multiply,divint,remainder,power,negate}, Function::{abs,cint}, \
          i16::try_from(Val) compared with exact i64 arithmetic: unary over all 65536 Integers; binary over a boundary \
          set squared (quick) and over all 2^32 pairs for + - * \\ MOD (thorough); floats stepping by 1/16 and by ulp \
-         around the conversion limits; sampled pairs through PRINT/assignment in a real Runtime. Distinct: every \
+         around the conversion limits; sampled pairs through PRINT/assignment in a real Runtime (variables, DEFINT, arrays, FOR/NEXT, NaN and \
+         infinities, literals in every spelling under folded operators, variables retyped by DEFINT, failing \
+         programs interrupted at a random instruction boundary and continued). Distinct: every \
          (operator, operands) tuple is enumerated once (counted by construction) or hashed (floats, pipeline). \
          Non-trivial: the exact result is an error or lies within 256 of a limit, an operand is -32768, a negative \
          divisor, any float conversion, any pipeline statement."
